@@ -9,6 +9,7 @@ mod c03;
 mod c05;
 mod c08;
 mod c17;
+mod c19;
 mod common;
 
 use vcore::report::Ctx;
@@ -72,6 +73,7 @@ fn main() {
             "C03" => c03::run(ctx, c03::Mode::C03),
             "C16" => c03::run(ctx, c03::Mode::C16),
             "C17" => c17::run(ctx),
+            "C19" => c19::run(ctx),
             _ => {
                 eprintln!("unknown property {}", id);
                 2
